@@ -37,6 +37,12 @@ def run(ctx, pool):
     stats["nontrivial"] |= st4["nontrivial"]
     for k, v in st4["outcomes"].items():
         stats["outcomes"]["extreme_" + k] = v
+    # short programmed runs whose last reported state sits a few kelvin below the pole of an Antoine equation, where a vapour pressure,
+    # the flux and the heat of evaporation run through the top of the floating-point range one after the other
+    tw5, st5 = pc.record_processes(ctx, ctx.n(4000, 120000), 0, {"with_std": False, "extreme": True, "pole": True}, kinds=["ideal_noniso"])
+    tw.traces.extend(tw5.traces)
+    for k, v in st5["outcomes"].items():
+        stats["outcomes"]["pole_" + k] = v
     tw2, st2 = pc.record_processes(ctx, ctx.n(200, 5000), 0, {"with_std": False}, coarse=False)
     tw.traces.extend(tw2.traces)
     stats["nontrivial"] |= st2["nontrivial"]
